@@ -333,17 +333,17 @@ func NewFp2(a, b *big.Int) Fp2 { return Fp2{A: a, B: b}.Reduce() }
 // Fp2FromInt64 builds a + b·u.
 func Fp2FromInt64(a, b int64) Fp2 { return NewFp2(big.NewInt(a), big.NewInt(b)) }
 
-func (x Fp2) Reduce() Fp2        { return fp2From(x.fe()) }
-func (x Fp2) Add(y Fp2) Fp2      { return fp2From(blsFp2.add(x.fe(), y.fe())) }
-func (x Fp2) Sub(y Fp2) Fp2      { return fp2From(blsFp2.sub(x.fe(), y.fe())) }
-func (x Fp2) Mul(y Fp2) Fp2      { return fp2From(blsFp2.mul(x.fe(), y.fe())) }
-func (x Fp2) Square() Fp2        { return fp2From(blsFp2.sqr(x.fe())) }
-func (x Fp2) Neg() Fp2           { return fp2From(blsFp2.neg(x.fe())) }
-func (x Fp2) IsZero() bool       { return blsFp2.isZero(x.fe()) }
-func (x Fp2) Equal(y Fp2) bool   { return blsFp2.eq(x.fe(), y.fe()) }
-func (x Fp2) Conj() Fp2          { e := x.fe(); return Fp2{A: e.A, B: negP(e.B, blsFp2.p)} }
-func (x Fp2) String() string     { e := x.fe(); return "(" + e.A.Text(16) + " + " + e.B.Text(16) + "·u)" }
-func (x Fp2) IsLargest() bool    { return blsFp2.isLargest(x.fe()) }
+func (x Fp2) Reduce() Fp2      { return fp2From(x.fe()) }
+func (x Fp2) Add(y Fp2) Fp2    { return fp2From(blsFp2.add(x.fe(), y.fe())) }
+func (x Fp2) Sub(y Fp2) Fp2    { return fp2From(blsFp2.sub(x.fe(), y.fe())) }
+func (x Fp2) Mul(y Fp2) Fp2    { return fp2From(blsFp2.mul(x.fe(), y.fe())) }
+func (x Fp2) Square() Fp2      { return fp2From(blsFp2.sqr(x.fe())) }
+func (x Fp2) Neg() Fp2         { return fp2From(blsFp2.neg(x.fe())) }
+func (x Fp2) IsZero() bool     { return blsFp2.isZero(x.fe()) }
+func (x Fp2) Equal(y Fp2) bool { return blsFp2.eq(x.fe(), y.fe()) }
+func (x Fp2) Conj() Fp2        { e := x.fe(); return Fp2{A: e.A, B: negP(e.B, blsFp2.p)} }
+func (x Fp2) String() string   { e := x.fe(); return "(" + e.A.Text(16) + " + " + e.B.Text(16) + "·u)" }
+func (x Fp2) IsLargest() bool  { return blsFp2.isLargest(x.fe()) }
 func (x Fp2) Inv() (Fp2, bool) {
 	if x.IsZero() {
 		return Fp2{}, false
